@@ -118,7 +118,16 @@ func (w *World) Msg(name string) MsgDef {
 	if m, ok := w.msgs[name]; ok {
 		return m
 	}
-	tags := []string{"", "t", "verif-tag", "BLS_SIG_", "another application tag with a long name ............................................"}
+	long := func(n int) string {
+		b := make([]byte, n)
+		for i := range b {
+			b[i] = byte('a' + w.Rng.Intn(26))
+		}
+		return string(b)
+	}
+	// short, empty and long tags: tag || signature suite must reach the KMAC key whole, also beyond one or two 168-byte blocks
+	tags := []string{"", "t", "verif-tag", "BLS_SIG_", "another application tag with a long name ............................................",
+		long(121), long(130), long(168), long(200), long(340)}
 	lens := []int{0, 1, 31, 32, 33, 100, 1000, 10000}
 	m := MsgDef{Tag: tags[w.Rng.Intn(len(tags))], Data: make([]byte, lens[w.Rng.Intn(len(lens))])}
 	w.Rng.Read(m.Data)
